@@ -177,7 +177,7 @@ def make_end(role, key, use_relay_handshake=None):
     return cs, p, t
 
 
-CHUNKS = [1, 1, 2, 3, 4, 5, 47, 48, 49, 96, 1000, 65534, 65535, 65536, None, None, None]
+CHUNKS = [1, 1, 1, 2, 3, 4, 5, 44, 45, 46, 47, 48, 49, 96, 1000, 65534, 65535, 65536, None, None, None]
 
 
 def run_case(c):
@@ -408,6 +408,14 @@ def run_case(c):
         elif hostile is None and got != exp:
             res.violate("roundtrip", "end %d surfaced %d of %d records: %s vs %s" % (
                 i, len(got), len(exp), _brief(got), _brief(exp)), input_class="records-missing")
+    if hostile is None:
+        # under any fragmentation an honest, correctly keyed pair must get through the prologue and the Noise
+        # handshake: nobody hangs up, both ends are selected, everything queued could be handed over
+        if L["t"].lose or F["t"].lose or not (L["selected"] and F["selected"]) or pending[0] or pending[1]:
+            res.violate("roundtrip", "honest pair did not establish the L2 connection: hung up L/F=%d/%d, selected "
+                        "L/F=%s/%s, records never handed over: %d" % (L["t"].lose, F["t"].lose, L["selected"], F["selected"],
+                                                                       len(pending[0]) + len(pending[1])),
+                        input_class="honest-connection-dropped")
     if hostile in ("psk", "relayreply"):
         expect_drop = True
         first_affected = 0
